@@ -80,6 +80,7 @@ type server struct {
 	cfg      []byte
 	dials    int
 	refuse   bool // refuse new connections
+	staleAck int64
 }
 
 func (s *server) dial(ctx context.Context, network, addr string) (net.Conn, error) {
@@ -113,6 +114,9 @@ func (s *server) dial(ctx context.Context, network, addr string) (net.Conn, erro
 		if bytes.Contains(m.Body, binary.LittleEndian.AppendUint32(nil, tg.HelpGetConfigRequestTypeID)) {
 			_ = p.Send(p.NextID(1), 0, pbt.MsgsAck(m.MsgID))
 			_ = p.Send(p.NextID(1), 1, pbt.RPCResult(m.MsgID, s.cfg))
+			s.mu.Lock()
+			s.staleAck = m.MsgID // answered: the client does not wait for this id any more
+			s.mu.Unlock()
 			return
 		}
 		i := bytes.Index(m.Body, binary.LittleEndian.AppendUint32(nil, marker))
@@ -140,7 +144,13 @@ func (s *server) dial(ctx context.Context, network, addr string) (net.Conn, erro
 			}
 			s.ackedOn[tag][idx] = true
 			s.mu.Unlock()
-			_ = p.Send(p.NextID(1), 0, pbt.MsgsAck(m.MsgID))
+			// servers batch acknowledgements: half of the time the ack arrives in a
+			// msgs_ack that first names an id the client no longer waits for
+			if s.staleAck != 0 && tag%2 == 0 {
+				_ = p.Send(p.NextID(1), 0, pbt.MsgsAck(s.staleAck, m.MsgID))
+			} else {
+				_ = p.Send(p.NextID(1), 0, pbt.MsgsAck(m.MsgID))
+			}
 		}
 		answer := func() {
 			s.mu.Lock()
